@@ -337,8 +337,16 @@ func (m *Machine) allocBound(c *Config, n Term, pos token.Pos) {
 	if m.cur == nil || !m.cur.allocCheck {
 		return
 	}
+	// only allocations made by the functions that read the wire are sized by declared lengths
+	fk := funcKey(c.top.fn)
+	if !(strings.Contains(fk, "(*Decoder)") || strings.HasPrefix(fk, "decode") || fk == "readBytes") {
+		return
+	}
 	if n.IsConst() {
 		return
+	}
+	if n.Sort != SBV64 {
+		n = BVConv(n, true, 64)
 	}
 	// every allocation whose size comes from the wire must be bounded by the
 	// remaining input (each element costs at least one octet) or a fixed constant
